@@ -210,9 +210,9 @@ def specs():
                    'circularity': [SENTINEL, 0.75]}, P, P, pol=(0, 1, 2),
                   post=('circularity', 'phase_retardation', 'fast_axis_orientation'), skip=ret_skip))
     S.append(Spec('LinearPolarizer', lambda v: hp.LinearPolarizer(v['polarization_angle']),
-                  {'polarization_angle': [0.5, g_angle, 1.25]}, PN, PN, pol=(0, 1, 2), skip=ret_skip))
+                  {'polarization_angle': [0.5, w_ret, 1.25]}, PN, PN, pol=(0, 1, 2), skip=ret_skip))
     S.append(Spec('StepIndexFiber', lambda v: hp.StepIndexFiber(v['core_radius'], v['NA'], 1.0, v['position']),
-                  {'core_radius': [0.25, 0.375], 'NA': [0.5, w_scalar], 'position': [[0.0, 0.0], [0.125, -0.0625]]},
+                  {'core_radius': [0.5, 0.75], 'NA': [0.5, 0.75], 'position': [[0.0, 0.0], [0.125, -0.0625]]},
                   P, P, grid_dep=None, skip={'numerical_aperture': 'alias of NA (same property object)'}))
     S.append(Spec('VectorVortexCoronagraph',
                   lambda v: hp.VectorVortexCoronagraph(2, None, v['phase_retardation'], q=8, scaling_factor=4, window_size=8),
@@ -424,6 +424,10 @@ class Hist:
             key = 'setter-no-effect %s.%s' % (name, self.pending_setter)
             what = 'after setting %s.%s the next propagation differs from a fresh element built with the new value: %s' % (
                 name, self.pending_setter, what)
+        elif clause in ('result-differs', 'exception-mismatch', 'instance-differs'):
+            two = any(op[0] == 'both' for op in self.case['ops'][:step + 1])
+            key = 'history-dependent%s %s' % ('-after-two-grid-request' if two else '', name)
+            what = '%s: %s' % (clause, what)
         else:
             key = '%s %s' % (clause, name)
         self.bad.append((key, what, step))
@@ -587,14 +591,14 @@ def gen_case(rng, spec, el_setters, big):
             ops.append(['none', int(rng.choice(wsel))])
         else:
             back = rng.random() < (0.5 if style == 'alternate' else 0.3)
+            pool = bsel if back else fsel
             if style == 'overflow':
-                g = int(rng.choice(fsel if not back else bsel))
+                g = int(rng.choice(pool))
                 w = int(rng.choice(wsel))
             else:
-                # favour a small working set so that hits are frequent
-                g = int((fsel if not back else bsel)[int(rng.integers(0, 2)) % len(fsel if not back else bsel)]) if rng.random() < 0.5 \
-                    else int(rng.choice(fsel if not back else bsel))
-                w = int(wsel[0]) if rng.random() < 0.5 else int(rng.choice(wsel))
+                # favour a small working set (two grids, one wavelength) so that hits are frequent
+                g = int(pool[int(rng.integers(0, min(2, len(pool))))]) if rng.random() < 0.7 else int(rng.choice(pool))
+                w = int(wsel[0]) if rng.random() < 0.7 else int(rng.choice(wsel))
             ops.append(['bwd' if back else 'fwd', g, w, dt, int(pol), seed])
     return {'spec': spec.name, 'maxN': maxN, 'style': style, 'ops': ops}
 
